@@ -498,7 +498,11 @@ def impl_robust(case):
     from hier import to_qref
 
     try:
-        c = compile_routine(to_qref(case["routine"])).routine
+        doc = to_qref(case["routine"])
+        if case.get("native"):
+            from hier import native_numbers
+            doc = native_numbers(doc)      # integer literals as native ints (difference: 0, not difference: "0")
+        c = compile_routine(doc).routine
     except BaseException as e:  # noqa: BLE001
         if type(e).__name__ == "CaseTimeout":
             raise
